@@ -889,6 +889,14 @@ def check(ctx):
     # gap arithmetic): the base insert stores exactly one chunk on every path that returns
     from .c11 import check as c11_check
     c11_check(ctx, parts=('store',))
+    # Round 7: the pattern of a fixed value is what the field's own pack emits, and the pre-filter is
+    # exact only if the packet's unpack decodes those bytes the same way: the generated struct
+    # blocks use each field's own endianness (C03-d)
+    from .c03 import check_struct_block
+    try:
+        check_struct_block(ctx)
+    except Undecided as e:
+        ctx.undecided('R2-struct-block', ('bisturi/codegen.py', 'CodeGenerator'), 'struct blocks', str(e), 0, clause='d')
     check_prefix_and_match(ctx, repo)
     check_bits(ctx, repo)
     check_any(ctx, repo)
